@@ -27,7 +27,11 @@ Definition next_wait (max w : Z) : Z :=
 Inductive cfail :=
 | CRefused (code : N)      (* CONNACK with a non-zero return code (connect.go:155-160) *)
 | CNoConnack               (* no CONNACK ever: Connect returns when ctxConnect is done (connect.go:153), see [blocks] *)
-| CPeerClosed.             (* transport ended before CONNACK (connect.go:151) *)
+| CPeerClosed              (* transport ended before CONNACK (connect.go:150) *)
+| CWriteFail.              (* the transport is already dead: Transport.Write of CONNECT returns an error
+                              (connect.go:146-148). The reader goroutine that closes Done() was started
+                              before the write (connect.go:120-132), so the loop's clean-up
+                              baseCli.Close(); <-baseCli.Done() (reconnclient.go:166-168) still completes *)
 
 (* how an established connection ended (the select at reconnclient.go:145-159) *)
 Inductive cend :=
@@ -82,7 +86,7 @@ Record config := mkConfig {
 Inductive ev :=
 | EvDial (i : nat)                   (* i-th call of Dialer.DialContext *)
 | EvOpen (k : nat)                   (* DialContext returned the k-th transport *)
-| EvConnect (k : nat) (c : connect)  (* a CONNECT packet with these fields written on transport k *)
+| EvConnect (k : nat) (c : connect)  (* a CONNECT packet with these fields handed to Transport.Write on k *)
 | EvBadPkt (k : nat)                 (* observation only: first packet on k is not that CONNECT *)
 | EvClose (k : nat)                  (* transport k closed *)
 | EvWait (d : Z)                     (* the loop sleeps d ns in the select 172-179 *)
